@@ -173,6 +173,10 @@ impl PidTracking {
 
         let slot_count = max_slots as usize;
         let pids_start = PID_TRACKING_HEADER_SIZE;
+        // Both arrays must lie inside the region before they size an allocation
+        if slot_count.saturating_mul(8) > data.len() - PID_TRACKING_HEADER_SIZE {
+            return Self::new(0);
+        }
         let modes_start = pids_start + slot_count * 4;
 
         let mut pids = vec![0u32; slot_count];
